@@ -5,10 +5,10 @@ package main
 // log-mutating and committing functions.
 
 import (
-	"go/types"
 	"fmt"
 	"go/constant"
 	"go/token"
+	"go/types"
 	os_ "os"
 	"sort"
 	"strings"
